@@ -51,6 +51,10 @@ class ClassDecl:
 
 def cls(key, fields=None, **kw):
     d = ClassDecl(key, fields or {}, **kw)
+    if d.short in CLASSES:
+        # a second declaration would get an id that a later class receives as well (ids are positions): refuse it
+        raise ValueError(f"class {d.short} is declared twice")
+    assert all(o.id != d.id for o in CLASSES.values())
     CLASSES[d.short] = d
     return d
 
